@@ -128,7 +128,7 @@ def evaluate(hbin, work, props):
             known_ids = {k for k, _ in known}
             du = [k for k in dis if k not in known_ids]
             res[p] = {"oracle": len(unknown), "disagree": len(du)}
-            if unknown or du: break
+            if unknown: break            # a failing input: done; a bare correspondence break: keep looking for one in the other properties
         except SystemExit:
             res[p] = {"oracle": 0, "disagree": 0, "crash": True}   # harness died (e.g. abort / hang killed): counts as noticed
             break
@@ -162,7 +162,7 @@ def run_one(widx, scratch, m, lock, fout):
         except Exception:
             res = {"?": {"crash": True, "out": e.stdout[-300:]}}
         rec["checks"] = res
-        det = [p for p, r in res.items() if r.get("oracle") or r.get("disagree") or r.get("crash")]
+        det = [p for p, r in res.items() if r.get("oracle") or r.get("crash")] or [p for p, r in res.items() if r.get("disagree")]
         rec["detected_by"] = det[0] if det else None
         rec["detected_with_input"] = bool(det and (res[det[0]].get("oracle") or res[det[0]].get("crash")))
         rec["status"] = "detected" if det else "SURVIVED"
@@ -207,6 +207,7 @@ def main():
     ap.add_argument("cmd"); ap.add_argument("--max", type=int, default=400); ap.add_argument("--workers", type=int, default=7)
     ap.add_argument("--files", default=""); ap.add_argument("--scratch", default="/tmp/ohsl-mut"); ap.add_argument("--seed", type=int, default=1)
     ap.add_argument("--append", action="store_true")
+    ap.add_argument("--redo-weak", action="store_true", help="re-run the mutants that were noticed only as a correspondence break")
     a = ap.parse_args()
     muts = enumerate_mutants(a.files)
     random.Random(a.seed).shuffle(muts)
@@ -216,7 +217,16 @@ def main():
     if a.append and os.path.exists(rp):
         for l in open(rp):
             r = json.loads(l); done.add((r["file"], r["line"], r["op"], r["col"]))
-    muts = [m for m in muts if (m["file"], m["line"], m["op"], m["col"]) not in done][: a.max]
+    if a.redo_weak:
+        recs = [json.loads(l) for l in open(rp)]
+        weak = {(r["file"], r["line"], r["op"], r["col"]) for r in recs if r.get("status") == "detected" and not r.get("detected_with_input")}
+        with open(rp, "w") as f:
+            for r in recs:
+                if (r["file"], r["line"], r["op"], r["col"]) not in weak: f.write(json.dumps(r) + "\n")
+        muts = [m for m in muts if (m["file"], m["line"], m["op"], m["col"]) in weak]
+        a.append = True
+    else:
+        muts = [m for m in muts if (m["file"], m["line"], m["op"], m["col"]) not in done][: a.max]
     print(f"{len(muts)} mutants to run with {a.workers} workers in {a.scratch}", flush=True)
     for w in range(a.workers): setup_worker(os.path.join(a.scratch, f"w{w}"))
     lock = threading.Lock()
